@@ -203,7 +203,8 @@ def r6_dial(ctx, R6):
         if https is True:
             ok = got == ["p:host", "p:port", "p:scheme"] or got == ["p:host", "p:port", K("https")]
         elif https is False:
-            ok = got == ["self.proxy.host", "self.proxy.port", "self.proxy.scheme"]
+            # (the proxy is a Url named tuple: attribute and positional access name the same fields)
+            ok = got in (["self.proxy.host", "self.proxy.port", "self.proxy.scheme"], [T("idx", "self.proxy", "2"), T("idx", "self.proxy", "3"), T("idx", "self.proxy", "0")])
         else:
             ok = False
         ctx.ob(R6, cfh.qual, f"scheme==https: {https} -> pool for {got}", ok,
@@ -298,4 +299,4 @@ def r5_proxy_tls(ctx, R5, wrap_states):
     ctx.sites(R5, n, 1, "proxy TLS wrap on rows")
     # the proxy handshake names the proxy's host: argument of _connect_tls_proxy on the paths of connect() that reach the origin wrap
     args = {s.ts.get("proxy_tls_host_arg") for s in wrap_states if "proxy-tls" in s.ts.get("ev", ())}
-    ctx.ob(R5, f"{hc}.connect", "the proxy handshake names the proxy's host (self.host of the proxied connection)", bool(args) and args <= {"self.host"}, f"argument: {sorted(map(str, args))}")
+    ctx.ob(R5, f"{hc}.connect", "the proxy handshake names the proxy's host (self.host of the proxied connection)", bool(args) and args <= {"self.host", "field:self.host"}, f"argument: {sorted(map(str, args))}")
